@@ -242,7 +242,7 @@ func RunC02(ctx *core.Ctx, rep *core.Report) {
 		"for configurations outside the indexed-read precondition the fall-back-or-error clause is applied. Every attachment/metadata index entry is followed with GetAttachmentReader/GetMetadata; metadata callbacks are compared in both modes. " +
 		"distinct_nontrivial counts distinct (shape, configuration) pairs whose scan returns at least one message."
 	rep.Assumptions = []string{"the sequential scan itself is judged by C01", "time-order correctness is judged by C03; here only the multiset"}
-	n := ctx.Pick(2000, 150000)
+	n := ctx.Pick(1600, 40000)
 	core.Parallel(ctx, rep, n, func(i int) {
 		rep.Eval(1)
 		c := c02Case(ctx, i)
